@@ -130,6 +130,20 @@ def enumerate_cases(tier):
                 flat = ["NaN" if np.isnan(x) else float(x) for x in arr.ravel().tolist()]
                 yield "dropna-threshold-grid", {"op": "dropna", "spec": {"dims": dims, "labels": labels, "vk": "f", "vals": flat}, "ax": dims.index("t"),
                                                 "axis_form": "name", "p": {}}
+    for x in _range_perm_cases():
+        yield x
+
+
+def _range_perm_cases():
+    """take_axis on an axis whose int labels are a permutation of the positions 0..3: every permutation x a few index lists"""
+    import itertools
+    for perm in itertools.permutations(range(4)):
+        for ind in ([perm[1], perm[2]], [2, 1], [3, 0, 0], list(perm)):
+            for indexing in ("label", "position"):
+                for ax, dims in ((0, ["t", "y"]), (1, ["y", "t"])):
+                    labels = [list(perm), ["a", "b"]] if ax == 0 else [["a", "b"], list(perm)]
+                    yield "take_axis-permuted-range-labels", {"op": "take_axis", "spec": {"dims": dims, "labels": labels, "vk": "f", "vals": [float(k) for k in range(8)]}, "ax": ax,
+                                                              "axis_form": "name", "p": {"indexing": indexing, "indices": list(ind), "as": "list"}}
 
 
 def strategy(tier):
